@@ -62,6 +62,8 @@ type Runner struct {
 	prop    *PropSpec
 	counter map[string]int // per-scenario counters (j-th call of an action etc.)
 	curTop    int          // id of the property-function invocation in progress
+	curCtxs   *[]ctxRef
+	lastCtxs  []ctxRef     // contexts of the last finished property-function invocation
 	firstFail int          // id of the first invocation that signalled a failure (0 = none yet)
 }
 
@@ -76,6 +78,7 @@ type inv struct {
 	t    *rapid.T
 	id   int
 	top  int // id of the enclosing property-function invocation
+	ctxs *[]ctxRef // every context obtained in this invocation (shared with sub-scripts)
 	vars map[string]any
 	last string
 }
@@ -110,7 +113,12 @@ func (r *Runner) Prop(p *PropSpec) func(*rapid.T) {
 		in := &inv{r: r, t: t, id: r.invSeq, vars: map[string]any{}}
 		in.top = in.id
 		r.curTop = in.id
+		in.ctxs = &[]ctxRef{}
+		prevCtxs := r.lastCtxs
+		r.lastCtxs = nil
+		r.curCtxs = in.ctxs
 		r.mu.Unlock()
+		r.resample(prevCtxs, "after")
 		r.rec.Emit("inv.begin", F{"inv": in.id})
 		r.mu.Lock()
 		ff := r.firstFail
@@ -125,6 +133,9 @@ func (r *Runner) Prop(p *PropSpec) func(*rapid.T) {
 				how = "ret"
 			}
 			r.rec.Emit("inv.end", F{"inv": in.id, "how": how, "last": in.last})
+			r.mu.Lock()
+			r.lastCtxs = *in.ctxs
+			r.mu.Unlock()
 		}()
 		ops := p.Body
 		if p.Keyed {
@@ -143,6 +154,24 @@ func (r *Runner) Prop(p *PropSpec) func(*rapid.T) {
 func (in *inv) run(ops []Op) {
 	for i := range ops {
 		in.step(&ops[i])
+	}
+}
+
+type ctxRef struct {
+	inv int
+	c   context.Context
+}
+
+func (in *inv) noteCtx(c context.Context) {
+	in.r.mu.Lock()
+	*in.ctxs = append(*in.ctxs, ctxRef{in.id, c})
+	in.r.mu.Unlock()
+}
+
+// resample reports the state of every context obtained so far in this invocation
+func (r *Runner) resample(refs []ctxRef, where string) {
+	for _, cr := range refs {
+		r.rec.Emit("ctx", F{"inv": cr.inv, "id": r.ctxID(cr.c), "err": ctxErr(cr.c), "where": where})
 	}
 }
 
@@ -270,6 +299,15 @@ func (in *inv) step(op *Op) {
 		r.rec.Emit("cleanup.reg", F{"inv": in.id, "id": id})
 		t.Cleanup(func() {
 			r.rec.Emit("cleanup.run", F{"inv": in.id, "id": id})
+			r.mu.Lock()
+			mine := []ctxRef{}
+			for _, cr := range *in.ctxs {
+				if cr.inv == in.id {
+					mine = append(mine, cr)
+				}
+			}
+			r.mu.Unlock()
+			r.resample(mine, "at-cleanup")
 			done := false
 			defer func() { r.rec.Emit("cleanup.end", F{"inv": in.id, "id": id, "ret": done}) }()
 			in.run(body)
@@ -277,6 +315,7 @@ func (in *inv) step(op *Op) {
 		})
 	case "ctx":
 		c := t.Context()
+		in.noteCtx(c)
 		f := F{"inv": in.id, "id": r.ctxID(c), "err": ctxErr(c), "where": op.Text}
 		if op.Var != "" {
 			in.vars[op.Var] = c
@@ -284,6 +323,7 @@ func (in *inv) step(op *Op) {
 		r.rec.Emit("ctx", f)
 	case "ctxlive": // a property that relies on its context being live while it runs
 		c := t.Context()
+		in.noteCtx(c)
 		r.rec.Emit("ctx", F{"inv": in.id, "id": r.ctxID(c), "err": ctxErr(c), "where": "live"})
 		if c.Err() != nil {
 			in.call("fatalf", 3, "context of a running test case is already done")
@@ -303,7 +343,7 @@ func (in *inv) step(op *Op) {
 			wg.Add(1)
 			go func() {
 				defer wg.Done()
-				sub := &inv{r: r, t: t, id: in.id, top: in.top, vars: in.vars}
+				sub := &inv{r: r, t: t, id: in.id, top: in.top, vars: in.vars, ctxs: in.ctxs}
 				sub.run(op.Body)
 			}()
 		}
@@ -330,7 +370,7 @@ func (in *inv) step(op *Op) {
 				r.rec.Emit("sm.action.begin", F{"inv": in.id, "name": name})
 				done := false
 				defer func() { r.rec.Emit("sm.action.end", F{"inv": in.id, "name": name, "ret": done, "last": in.last}) }()
-				sub := &inv{r: r, t: t2, id: in.id, top: in.top, vars: in.vars}
+				sub := &inv{r: r, t: t2, id: in.id, top: in.top, vars: in.vars, ctxs: in.ctxs}
 				defer func() { in.last = sub.last }()
 				sub.last = ""
 				sub.run(body)
@@ -343,13 +383,13 @@ func (in *inv) step(op *Op) {
 				r.rec.Emit("sm.inv.begin", F{"inv": in.id})
 				done := false
 				defer func() { r.rec.Emit("sm.inv.end", F{"inv": in.id, "ret": done}) }()
-				sub := &inv{r: r, t: t2, id: in.id, top: in.top, vars: in.vars}
+				sub := &inv{r: r, t: t2, id: in.id, top: in.top, vars: in.vars, ctxs: in.ctxs}
 				defer func() { in.last = sub.last }()
 				sub.run(body)
 				done = true
 			}
 		}
-		r.rec.Emit("sm.begin", F{"inv": in.id, "n": len(op.Actions)})
+		r.rec.Emit("sm.begin", F{"inv": in.id, "n": len(op.Actions), "hasinv": op.Inv != nil})
 		smdone := false
 		defer func() { r.rec.Emit("sm.end", F{"inv": in.id, "ret": smdone}) }()
 		t.Repeat(actions)
@@ -368,7 +408,10 @@ func (in *inv) step(op *Op) {
 func (r *Runner) customBody(t *rapid.T, body []Op, ret *Built) any {
 	r.mu.Lock()
 	r.invSeq++
-	in := &inv{r: r, t: t, id: r.invSeq, top: r.curTop, vars: map[string]any{}}
+	in := &inv{r: r, t: t, id: r.invSeq, top: r.curTop, vars: map[string]any{}, ctxs: r.curCtxs}
+	if in.ctxs == nil {
+		in.ctxs = &[]ctxRef{}
+	}
 	r.mu.Unlock()
 	r.rec.Emit("cinv.begin", F{"inv": in.id})
 	done := false
